@@ -563,7 +563,7 @@ def gen_cell_option(rng):
             'starfill', 'startrcl', 'imp2', 'imp3', 'imp4']
     for kind in rng.sample(pool, rng.randint(1, 4)):
         if kind == 'imp':
-            parts.append(f'imp:n={rng.choice(["1", "0", "2.5", "1e1", "x"])}')
+            parts.append(f'imp:n={rng.choice(["1", "0", "2.5", "1e1", "x", "1+0", "2.5d0", "1d"])}')
         elif kind == 'imp2':
             parts.append(f'imp:n,p={rng.choice(["1", "4"])}')
         elif kind == 'imp3':
